@@ -518,11 +518,14 @@ func (group *Group) feedRtpPacket(pkt rtprtcp.RtpPacket) {
 		}
 
 		if !boundaryChecked {
+			// 注意，只有视频包才可能是GOP起始位置。音频包（比如G711、OPUS）的负载是任意字节，不能按视频的nalu类型去解析，
+			// 否则一个碰巧像关键帧的音频包会提前结束等待，订阅者收到的第一个视频包就不是GOP起始位置了
+			isVideo := group.sdpCtx.IsVideoPayloadTypeOrigin(int(pkt.Header.PacketType))
 			switch group.sdpCtx.GetVideoPayloadTypeBase() {
 			case base.AvPacketPtAvc:
-				boundary = rtprtcp.IsAvcBoundary(pkt)
+				boundary = isVideo && rtprtcp.IsAvcBoundary(pkt)
 			case base.AvPacketPtHevc:
-				boundary = rtprtcp.IsHevcBoundary(pkt)
+				boundary = isVideo && rtprtcp.IsHevcBoundary(pkt)
 			default:
 				// 注意，不是avc和hevc时，直接发送
 				boundary = true
